@@ -287,7 +287,8 @@ def c10_chain(out, nmax=3):
             continue
         from .mir.streams import sid
         ret = sid(ex.summ(mx.State(), r.value))
-        got = tk.text(streams.get(ret, [])) if ret else None
+        from .replay_e3 import unlocal
+        got = unlocal(tk.text(streams.get(ret, []))) if ret else None
         if got is None:
             unknown = "the returned value is not a stream the executor followed"
             continue
